@@ -1005,6 +1005,11 @@ func (c *Ctx) checkDispatch(r *Report, ro *Roles) {
 		}
 		// representation pairs
 		ea := encArg[ct.vt]
+		// canonical parameter name in the patterns below
+		for i := range ct.num {
+			ct.num[i] = strings.ReplaceAll(ct.num[i], "param:"+ct.fn.Params[1].Name(), "param:val")
+		}
+		ct.any = strings.ReplaceAll(ct.any, "param:"+ct.fn.Params[1].Name(), "param:val")
 		okPair := false
 		why := ""
 		sort.Strings(ct.num)
